@@ -360,14 +360,17 @@ func (g *gen) doc(mid, rid uint64, n int) DocSpec {
 
 var ridPool = []uint64{0, 1, 2, 3, 5, 8, 13, 21, 1 << 31, 1 << 32, 1<<63 - 1, 1 << 63, ^uint64(0) - 1, ^uint64(0)}
 
+// random parts: mostly small numbers (the Coq side pays per digit), some 64-bit ones and the extremes
 func (g *gen) rid() uint64 {
-	switch g.r.Intn(4) {
+	switch g.r.Intn(8) {
 	case 0:
 		return rng.Pick(g.r, ridPool)
-	case 1:
+	case 1, 2:
 		return uint64(g.r.Range(1, 40))
+	case 3:
+		return g.r.U64()
 	}
-	return g.r.U64()
+	return uint64(g.r.Range(1, 99999))
 }
 
 func (g *gen) docLen(kind string) int {
@@ -406,7 +409,7 @@ func (g *gen) freshID(lo, hi uint64) (uint64, uint64) {
 func (g *gen) scenario(kind string) Scenario {
 	r := g.r
 	sc := Scenario{Kind: kind, Restart: r.Chance(1, 4), SkipSort: r.Chance(1, 4)}
-	base := uint64(1_000_000 + r.Intn(1000))
+	base := uint64(10_000 + r.Intn(1000))
 	nfr := r.Range(1, 4)
 	lastActive := r.Chance(1, 2)
 	switch kind {
@@ -650,10 +653,11 @@ func (g *gen) requests(sc Scenario, views []fracView, tier string) []request {
 			for i := 0; i < k; i++ {
 				at[r.Intn(n)] = true
 			}
-			for i := 0; i < n; i++ {
-				if at[i] && len(small) > 0 {
+			for i := 0; len(ids) < n && i < 30*n; i++ {
+				if at[len(ids)] && len(small) > 0 {
 					d := rng.Pick(r, small)
 					push(d.MID, d.RID, 0)
+					delete(at, len(ids)-1)
 				} else {
 					m, x := absent()
 					push(m, x, 0)
@@ -714,7 +718,7 @@ func (g *gen) requests(sc Scenario, views []fracView, tier string) []request {
 		}
 	}
 	for i := 0; i < nreq; i++ {
-		kind := kinds[(i+r.Intn(3))%len(kinds)]
+		kind := rng.Pick(r, kinds)
 		n := r.Range(1, maxIDs)
 		if r.Chance(1, 3) {
 			n = r.Range(1, 12)
@@ -738,6 +742,7 @@ type result struct {
 }
 
 type scenarioOut struct {
+	frs     string // Coq term: the fractions of the scenario
 	results []result
 	err     error // harness failure (not a violation)
 }
@@ -771,7 +776,7 @@ func coqFracs(views []fracView) string {
 			if i > 0 {
 				sb.WriteString(";")
 			}
-			fmt.Fprintf(&sb, "((%d,%d),(%d,%d))", d.MID, d.RID, d.No, d.Len)
+			fmt.Fprintf(&sb, "D %d %d %d %d", d.MID, d.RID, d.No, d.Len)
 		}
 		sb.WriteString("]")
 	}
@@ -786,7 +791,7 @@ func coqIDs(ids []ReqID) string {
 		if i > 0 {
 			sb.WriteString(";")
 		}
-		fmt.Fprintf(&sb, "((%d,%d),%d)", x.MID, x.RID, x.Hint)
+		fmt.Fprintf(&sb, "Q %d %d %d", x.MID, x.RID, x.Hint)
 	}
 	sb.WriteString("]")
 	return sb.String()
@@ -800,9 +805,9 @@ func coqSent(sent [][4]uint64) string {
 			sb.WriteString(";")
 		}
 		if e[2] == 0 && e[3] == 0 {
-			fmt.Fprintf(&sb, "((%d,%d),None)", e[0], e[1])
+			fmt.Fprintf(&sb, "X %d %d", e[0], e[1])
 		} else {
-			fmt.Fprintf(&sb, "((%d,%d),Some(%d,%d))", e[0], e[1], e[2], e[3])
+			fmt.Fprintf(&sb, "F %d %d %d %d", e[0], e[1], e[2], e[3])
 		}
 	}
 	sb.WriteString("]")
@@ -889,7 +894,7 @@ func runScenario(seed uint64, tier string, idx int, kind string, cs constsResp) 
 	if k != len(sc.Fracs) {
 		return scenarioOut{err: fmt.Errorf("harness: %d fractions with documents, built %d", k, len(sc.Fracs))}
 	}
-	frs := coqFracs(views)
+	out.frs = coqFracs(views)
 	cfg := fmt.Sprintf("(mkCfg %d %d %d)", cs.IDsPerBlock, cs.MaxFetch, cs.InitChunk)
 	type fsum struct {
 		Name   string `json:"name"`
@@ -929,7 +934,7 @@ func runScenario(seed uint64, tier string, idx int, kind string, cs constsResp) 
 			fmt.Sprintf("present-share:%s", share(npres, len(rq.ids))))
 		if ferr != nil {
 			if !errors.Is(ferr, storectl.ErrDied) {
-				return scenarioOut{results: out.results, err: fmt.Errorf("fetch: %w", ferr)}
+				return scenarioOut{err: fmt.Errorf("fetch: %w", ferr)}
 			}
 			// the store process died (or hung and was killed) while serving the request
 			msg := ferr.Error()
@@ -938,7 +943,7 @@ func runScenario(seed uint64, tier string, idx int, kind string, cs constsResp) 
 			} else if len(msg) > 300 {
 				msg = msg[:300]
 			}
-			res.coq = fmt.Sprintf("CFetch %s\n   %s\n   %s\n   SCrash None", cfg, frs, coqIDs(rq.ids))
+			res.coq = fmt.Sprintf("CFetch %s frs\n   %s\n   SCrash None", cfg, coqIDs(rq.ids))
 			res.impl = map[string]any{"store_process_died": msg}
 			res.nontrivial = true
 			out.results = append(out.results, res)
@@ -952,7 +957,7 @@ func runScenario(seed uint64, tier string, idx int, kind string, cs constsResp) 
 		if resp.LensErr != "" {
 			lens = append(lens, 0) // a batch carrying an error
 		}
-		res.coq = fmt.Sprintf("CFetch %s\n   %s\n   %s\n   (%s %s) (Some %s)", cfg, frs, coqIDs(rq.ids), status,
+		res.coq = fmt.Sprintf("CFetch %s frs\n   %s\n   (%s %s) (Some %s)", cfg, coqIDs(rq.ids), status,
 			coqSent(resp.Sent), strings.TrimSuffix(casefile.NList(lens), "%N"))
 		found := 0
 		for _, e := range resp.Sent {
@@ -1009,7 +1014,8 @@ func share(a, b int) string {
 }
 
 // direct differential run of calcChunkSize
-func runCalc(w *casefile.Writer, seed uint64, tier string, cs constsResp) error {
+func runCalc(w *cwriter, seed uint64, tier string, cs constsResp) error {
+	var rs []result
 	st, err := storectl.Start("")
 	if err != nil {
 		return err
@@ -1062,12 +1068,18 @@ func runCalc(w *casefile.Writer, seed uint64, tier string, cs constsResp) error 
 		for _, s := range sizes {
 			sum += s
 		}
-		w.Add(fmt.Sprintf("CCalc %s %s %d %s", cfg, strings.TrimSuffix(casefile.NList(sizes), "%N"), prev, impl),
-			"calc-chunk", sum > 0 && sum < len(sizes),
-			map[string]any{"sizes": sizes, "prev": prev}, map[string]any{"result": out.Res, "panic": out.Panic})
-		w.Count("calc:mode" + fmt.Sprint(mode))
+		rs = append(rs, result{coq: fmt.Sprintf("CCalc %s %s %d %s", cfg, strings.TrimSuffix(casefile.NList(sizes), "%N"), prev, impl),
+			class: "calc-chunk", nontrivial: sum > 0 && sum < len(sizes),
+			input: map[string]any{"sizes": sizes, "prev": prev}, impl: map[string]any{"result": out.Res, "panic": out.Panic},
+			counts: []string{"calc:mode" + fmt.Sprint(mode)}})
+		if len(rs) >= 100 {
+			if err := w.File("", rs); err != nil {
+				return err
+			}
+			rs = nil
+		}
 	}
-	return nil
+	return w.File("", rs)
 }
 
 func main() {
@@ -1109,7 +1121,7 @@ func main() {
 			only = *rp.Replay.Case.Input.Scenario
 		}
 	}
-	w, err := casefile.New(*outdir, "C04", "From VLib Require Import CaseLib.\nFrom C04 Require Import Model CaseDefs.\nOpen Scope N_scope.", 40)
+	w, err := newCWriter(*outdir, "From VLib Require Import CaseLib.\nFrom C04 Require Import Model CaseDefs.\nOpen Scope N_scope.")
 	if err != nil {
 		panic(err)
 	}
@@ -1166,12 +1178,11 @@ func main() {
 			fmt.Fprintf(os.Stderr, "hC04: scenario %d (%s): %v\n", i, kinds[i], o.err)
 			os.Exit(3)
 		}
-		for _, r := range o.results {
-			w.Add(r.coq, r.class, r.nontrivial, r.input, r.impl)
-			for _, c := range r.counts {
-				w.Count(c)
-			}
+		for range o.results {
 			w.Count("scenario:" + kinds[i])
+		}
+		if err := w.File("Definition frs : list frac := "+o.frs+".", o.results); err != nil {
+			panic(err)
 		}
 	}
 	if only < 0 {
